@@ -845,8 +845,15 @@ fn join_chunks(chunks: Vec<Chunk>, options: &FormattingOptions) -> String {
             indent = Some(chunk.indent);
         }
 
-        for str in chunk.str.split_inclusive('\n') {
+        for (piece_idx, str) in chunk.str.split_inclusive('\n').enumerate() {
             let mut ignore = false;
+
+            // The lines of a comment that follow its first line are placed like a comment of their own. Their old
+            // indentation has to go first: it is part of the comment's text, so it would be added to on every run.
+            let str = match (piece_idx, chunk.ty) {
+                (1.., Some(ChunkType::Comment)) => str.trim_start_matches([' ', '\t']),
+                _ => str,
+            };
 
             match chunk.ty {
                 Some(ChunkType::Label) => {
